@@ -35,7 +35,7 @@ CHECKS = {
 CHECKS["C12"] = {
     "level": "exploration",
     "technique": _TECH + ": independent AES-GCM frame codec as wiretap and as sender against real streams; counters near 2^32 via imported state",
-    "level_text": "Seeded exploration with an independent oracle: generated send histories (cleartext prefixes of every shape including none, empty/multi-frame/typed messages, both directions interleaved by the scheduler, secrets on a keyed non-encrypting stream) run on two real streams; refcodec - written from the property statement, sharing no code with cedar - opens every emitted frame under the documented nonce/AAD/IV rule, records the nonce set, compares base IVs, and in a second scenario builds the frames itself and feeds them to the real receiver. Counters are started at 2^32-1-k (k=0..6) through a patched exported session blob and the stream must refuse to send rather than wrap. Symmetric mistakes that cedar-to-cedar tests cannot see fail here.",
+    "level_text": "Seeded exploration with an independent oracle: generated send histories (cleartext prefixes of every shape including none, empty/multi-frame/typed messages, both directions interleaved by the scheduler, secrets on a keyed non-encrypting stream) run on two real streams; refcodec - written from the property statement, sharing no code with cedar - opens every emitted frame under the documented nonce/AAD/IV rule, records the nonce set, compares base IVs, and in a second scenario builds the frames itself and feeds them to the real receiver. Counters are started at 2^32-1-k (k=0..6) through a patched exported session blob and the stream must refuse to send rather than wrap. Symmetric mistakes that cedar-to-cedar tests cannot see fail here. A fourth scenario installs a key again on a live stream pair (the same key, or another) between bursts of protected frames with known plaintexts and checks, independently of the frame format, that no two frames under one key share a key stream (c1 xor c2 == p1 xor p2 over >= 32 bytes would show a repeated nonce).",
     "level_note": "Trusts Go's crypto/aes+cipher (used by both cedar and the reference) and the reference's reading of the format in the property statement. The blob patch locates the counters relative to the key bytes and is validated (both read back as 1) before use.",
     "budget": {"quick": 25, "thorough": 900},
     "rule": "a case is one generated send history on two real keyed streams (or reference-sender vs real receiver, or a counter-limit run); every wire frame is opened by the reference codec. "
@@ -86,7 +86,7 @@ CHECKS["C19"] = {
 CHECKS["C11"] = {
     "level": "fault_enumeration",
     "technique": _TECH + ": real TOKEN client and server halves with in-memory keys; token mutated bit by bit and aged with the virtual clock moved mid-exchange; field-aware relay over the three AKEP2 messages; independent token/signature/time reference",
-    "level_text": "Fault enumeration, one deviation at a time: (a) the client's token is mutated - every bit of header, payload and signature (thorough; every 8th in quick), signed by another key, naming an unknown key id or none, another subject, too old already, expiring or becoming too old while the server is held for 5 or 30 virtual seconds before it reads the first AKEP2 message; (b) the server holds a different key under the same id, no key, an empty key; (c) a field-aware relay between real client and real server (plaintext session, so that the encrypted-session transcript binding cannot mask a missing check) makes each element of the three AKEP2 messages wrong, truncated and empty (status codes 1/-1/7, the claimed identity replaced, trailing bytes appended); (d) security.VerifyIDToken is run on the same token variants at 7 clock positions around exp and max-age. Oracle: an independent reference (HKDF+HMAC signature, time rule, evaluated at the virtual instant the server validates) says whether the server MAY accept: server success requires a definitely valid token and the recorded user must be the user part of the token's subject; client success requires that the server really held the signature; for every altered proof, echo, nonce or status the receiver of that message must not succeed; VerifyIDToken must agree with the reference off the exact time boundaries.",
+    "level_text": "Fault enumeration, one deviation at a time: (a) the client's token is mutated - every bit of header, payload and signature (thorough; every 8th in quick), signed by another key, naming an unknown key id or none, another subject, too old already, expiring or becoming too old while the server is held for 5 or 30 virtual seconds before it reads the first AKEP2 message; (b) the server holds a different key under the same id, no key, an empty key; (c) a field-aware relay between real client and real server (plaintext session, so that the encrypted-session transcript binding cannot mask a missing check) makes each element of the three AKEP2 messages wrong, truncated and empty (status codes 1/-1/7, the claimed identity replaced, trailing bytes appended); (d) security.VerifyIDToken is run on the same token variants at 7 clock positions around exp and max-age. Oracle: an independent reference (HKDF+HMAC signature, time rule, evaluated at the virtual instant the server validates) says whether the server MAY accept: server success requires a definitely valid token and the recorded user must be the user part of the token's subject; client success requires that the server really held the signature; for every altered proof, echo, nonce or status the receiver of that message must not succeed; VerifyIDToken (a single exact clock reading) must agree with the reference at every second including the boundaries: a token is expired from the second exp on.",
     "level_note": "At the exact boundaries (now == exp, age == max age) either answer is accepted (the statement does not fix >= vs >). Trailing bytes are counted, not judged. The wire token is header.payload only; 'bits of the signature' are bits of the client's configured token.",
     "budget": {"quick": 20, "thorough": 600},
     "rule": "a case is one deviation (token variant, server key variant, relay field mutation, or verifier input x clock) run as a real handshake or verifier call in the simulator; distinct = distinct event-log hash; non-trivial = a fault fired or the scheduler had a choice.",
@@ -112,7 +112,7 @@ CHECKS["C13"] = {
 CHECKS["C20"] = {
     "level": "exploration",
     "technique": _TECH + ": real ccb.Dial on the simulated network against scripted brokers and legitimate / rogue reverse connectors; arrival orders and reply-vs-connect races are seeded scheduler decisions; identity of every connection tracked",
-    "level_text": "Seeded exploration of schedules: the real ccb.Dial (standard reverse-connect mode and proxied/streaming mode; 1-3 brokers in shuffled order with the Happy-Eyeballs stagger timer on the virtual clock; real client handshakes with each broker through the dial hook; the ephemeral reverse listener through the listen hook) runs up to 3 times per run against scripted brokers (dead, or answering success / failure / nothing, after 0-3000 virtual ms, and having the target connect back legitimately, not at all, with a wrong id, with the id of an earlier request of the run, or with the id of another attempt of the same dial) and up to 3 rogue connectors per dial aimed at the ephemeral listener (wrong id, empty id, stale id, garbage bytes, immediate close, silent). Which of reply, legitimate connection and rogues arrives first is decided by the seeded scheduler. Every simulated connection records who opened it and what it presented. Oracle: a returned connection's far end presented the connect id generated for that very attempt (in standard mode: on that attempt's own listener; in proxied mode: the broker connection after the matching hello); every connection that presented anything else was closed by the dialer; a single broker's failure reply ends the dial with an error carrying its reason. Whether a losing legitimate connection is closed is counted, not judged.",
+    "level_text": "Seeded exploration of schedules: the real ccb.Dial (standard reverse-connect mode and proxied/streaming mode; 1-3 brokers in shuffled order with the Happy-Eyeballs stagger timer on the virtual clock; real client handshakes with each broker through the dial hook; the ephemeral reverse listener through the listen hook) runs up to 3 times per run against scripted brokers (dead, or answering success / failure / nothing, after 0-3000 virtual ms, and having the target connect back legitimately, not at all, with a wrong id, with the id of an earlier request of the run, or with the id of another attempt of the same dial) and up to 3 rogue connectors per dial aimed at the ephemeral listener (wrong id, empty id, stale id, garbage bytes, immediate close, silent). Which of reply, legitimate connection and rogues arrives first is decided by the seeded scheduler. Every simulated connection records who opened it and what it presented. Oracle: a returned connection's far end presented the connect id generated for that very attempt (in standard mode: on that attempt's own listener; in proxied mode: the broker connection after the matching hello); every connection that presented anything else - a wrong, empty, stale, sibling-request, prefix, extended or re-cased id, a hello without ClaimId or with a non-string one, garbage, nothing - was closed by the dialer (in proxied mode: the broker connection whose replayed hello does not match); a single broker's failure reply ends the dial with an error carrying its reason. Whether a losing legitimate connection is closed is counted, not judged.",
     "level_note": "Brokers and connectors are scripted (real cedar server handshake for CCB_REQUEST, ccb.ReadControlAd/WriteControlAd/WriteReverseConnect for the messages). Nested multi-hop contacts and shared-port endpoints are not exercised.",
     "budget": {"quick": 25, "thorough": 900},
     "rule": "a case is one generated broker/connector configuration with 1-3 dials; distinct = distinct event-log hash (which includes the arrival order of every accept, reply and connection); non-trivial = the scheduler had a choice.",
@@ -139,7 +139,7 @@ CHECKS["C18"] = {
 CHECKS["C16"] = {
     "level": "exploration",
     "technique": _TECH + ": minter node and importer node with separate caches on the simulated network; generated mint options; real handshakes naming the session in both dial directions; virtual-time lifetime",
-    "level_text": "Seeded exploration over minting options and both connection directions: node A mints a claim (sinfuls with and without embedded '#', brackets, IPv6 literals and parameters; encryption/integrity toggles; single and multiple ciphers; command lists; lifetimes; long and short versions; peer address set or not), node B imports the claim id into its own cache; the two cache entries must agree on id, key bytes, policy attributes and expiry, and the policy must say what the options asked for; then real client and server handshakes naming the session run B->A and A->B over the simulated network and must resume with exactly request+reply in the clear (no authentication exchange on the wire), exchange a message each way that never appears in clear, and report an authenticated session; an importer whose claim id has one secret character changed gets no application byte accepted by the minter and cannot read its reply; with a lifetime L both directions still work 3 s before L and both refuse 2 s after it (virtual clock), and both caches have dropped the entry. In half the runs both holders of the claim id also derive the file-transfer session (ImportFileTransferSession): same 'filetrans.' id and key on both, encryption and integrity on, resumes both ways and carries traffic, and a holder of a different secret gets nothing accepted. The public form of the claim id must not contain the secret.",
+    "level_text": "Seeded exploration over minting options and both connection directions: node A mints a claim (sinfuls with and without embedded '#', brackets, IPv6 literals and parameters; encryption/integrity toggles; single and multiple ciphers; command lists; lifetimes; long and short versions; peer address set or not), node B imports the claim id into its own cache; the two cache entries must agree on id, key bytes, policy attributes and expiry, and the policy must say what the options asked for; then real client and server handshakes naming the session run B->A and A->B over the simulated network and must resume with exactly request+reply in the clear (no authentication exchange on the wire), exchange a message each way that never appears in clear, and report an authenticated session; an importer whose claim id has one secret character changed gets no application byte accepted by the minter and cannot read its reply; with a lifetime L both directions still work 3 s before L and both refuse 2 s after it (virtual clock), and both caches have dropped the entry. In half the runs both holders of the claim id also derive the file-transfer session (ImportFileTransferSession): same 'filetrans.' id and key on both, encryption and integrity on, resumes both ways and carries traffic, and a holder of a different secret gets nothing accepted. Both directions must also resume without naming the session, through the (tag, peer address, command) mapping that minting and importing install (tag drawn empty or not). The corrupted secret differs in one character: another digit, the other case of a hex letter, or a trailing blank. The public form of the claim id must not contain the secret.",
     "level_note": "The render/parse sub-claims are input-only and are asserted as by-products; the claim rests on the two-node, timed behaviour. ImportFileTransferSession is not exercised.",
     "budget": {"quick": 20, "thorough": 600},
     "rule": "a case is one generated option set run through mint, import, 2-7 simulated connections and up to two clock jumps; distinct = distinct event-log hash; non-trivial = scheduler had a choice.",
@@ -187,7 +187,7 @@ CHECKS["C07"] = {
 CHECKS["C10"] = {
     "level": "exploration",
     "technique": _TECH + ": two real endpoints over the simulated network for every cell of the policy matrix; independently written decision table as oracle",
-    "level_text": "Exhaustive over configurations, sampled over transport schedules: every cell of the 4^4 (client/server authentication x encryption level) matrix x 8 method-list shapes (equal, overlapping in different orders, disjoint, empty on either side, unimplemented method first, token listed but not held, token held) x cipher lists (common / none) x command present or auth-only is run as a real client handshake against a real server handshake inside the simulator with drawn segmentation/latency/short reads/window; the oracle is a decision table written from the property statement: which cells must fail (with an explicit denial, not a bare close), which must authenticate, which must encrypt, and that both ends report the same authentication and encryption outcome, session id and key and can exchange a message each way at once. Cells the statement leaves open pass with either outcome as long as the ends agree.",
+    "level_text": "Exhaustive over configurations, sampled over transport schedules: every cell of the 4^4 (client/server authentication x encryption level) matrix x 11 method-list shapes (equal, overlapping in different orders, disjoint, empty on either side, unimplemented method first, names cedar does not know at all ahead of or between the usable ones on either side, token listed but not held, token held) x cipher lists (common / none) x command present or auth-only is run as a real client handshake against a real server handshake inside the simulator with drawn segmentation/latency/short reads/window; the oracle is a decision table written from the property statement: which cells must fail (with an explicit denial, not a bare close), which must authenticate, which must encrypt, and that both ends report the same authentication and encryption outcome, session id and key and can exchange a message each way at once. Cells the statement leaves open pass with either outcome as long as the ends agree.",
     "level_note": "Only CLAIMTOBE and TOKEN are used as methods (SSL halves do not interoperate, FS touches the real /tmp, SCITOKENS/KERBEROS need external services). Cells whose classification depends on reading 'supported' as 'listed' vs 'usable' are agreement-only.",
     "budget": {"quick": 20, "thorough": 600},
     "rule": "a case is one cell of the configuration matrix run as two real handshakes plus a ping/pong exchange under a drawn transport configuration; distinct = distinct event-log hash; non-trivial = the scheduler had a choice.",
